@@ -218,7 +218,7 @@ def save_violation(verdict, src_kind, src_name, path, mm):
     run, start = extract_run(path, mm["line"])
     fail_idx = mm["line"] - start            # index of the failing event inside the run (0 = reset line)
     run = run[:fail_idx + 3]                 # keep two lines of context after the failing one
-    d = os.path.join(common.ROOT, "replay", PROP)
+    d = os.path.join(common.OUT, "replay", PROP)
     os.makedirs(d, exist_ok=True)
     tpath = os.path.join(d, "trace-%s-%s.ndjson" % (mm["inv"], src_kind))
     open(tpath, "w").write("".join(run))
@@ -257,7 +257,7 @@ def report_panics(verdict, kind, path, panics):
         norm = re.sub(r"[0-9a-f]*\d[0-9a-f]*", "N", msg)[:80]
         run, start = extract_run(path, lineno)
         run = run[:lineno - start + 1]
-        d = os.path.join(common.ROOT, "replay", PROP)
+        d = os.path.join(common.OUT, "replay", PROP)
         os.makedirs(d, exist_ok=True)
         tpath = os.path.join(d, "trace-panic-%s-%s.ndjson" % (kind, hashlib.md5(norm.encode()).hexdigest()[:8]))
         if not os.path.exists(tpath) or True:
